@@ -6,7 +6,25 @@ LEVEL_DEFAULT = ("Bounded: every harness/obligation is decided by a SAT/SMT solv
                  "step per kernel). Nothing is claimed outside the bounds; the composition from kernels to the API sentence is a written argument in DESIGN.md.")
 NOTE_DEFAULT = ("Trusted base: Kani/CBMC, z3 (cross-checked with z3 4.8.12 and cvc5), rustc's MIR dump, the overlay environment model "
                 "(kani_env.rs), the MIR summary catalogue (mir2smt/summaries.py, iters.py) and the representation invariants; see evidence assumptions.")
-LEVEL_TEXT = {}
+_B = "Bounded model checking, decided by SAT/SMT solvers over the real code (Kani harnesses on the compiled crate; symbolic execution of the MIR dump), one inductive step per kernel from an arbitrary invariant-satisfying pre-state; nothing is claimed outside the stated bounds. "
+LEVEL_TEXT = {
+    "C01": _B + "Decided: ordered insertion (per-key vector <= 5/7), latest lookup in memory (<= 6/12) and in an on-disk leaf (<= 4/6 records), cross-blob fold of latest (<= 2/3 closed blobs). Outside: which blobs are consulted (C10), byte loading (C05).",
+    "C02": _B + "Decided: per-blob history cut (<= 6/10), cross-blob merge and cut (2x2, 3x1; 3x2 thorough), Blob::delete rule, delete fan-out over closed blobs (<= 3/5) and its sum, duplicate-write guard and acknowledgement. Outside: Meta equality inside contains_with.",
+    "C03": _B + "Decided: index acceptance predicate incl. file length, fallback to regeneration, two-phase index write order, loading an index back (fold step, reversal, count), blob-id allocation at init (<= 2 files). Outside: answers across a real re-open, SHA-256, writer side of the version order.",
+    "C04": _B + "Decided: index reload before a deletion, restore/close of the active blob (order, no suspension while the blob is in neither place), container pop/push scenarios (<= 4 children), disk->memory load. Outside: interleavings with background work, runtime flavours.",
+    "C05": _B + "Decided: CRC kernels (bursts <= 32 bits over 4 bytes), record header layout, partial-serialisation equivalence (thorough), Entry::load audits over file ranges, scan step and all-or-nothing scan (<= 3/5 records). Outside: Meta maps, 80 KiB threshold, real files.",
+    "C06": _B + "Decided at the places the code meets a crash state: blob of any size (scan tiles the file or fails, <= 2/4 records), index shorter than described, error classification, init with no readable blob, id allocation, recovery copy loop (<= 3). Outside: real SIGKILL timing, torn content of a full-length index tail, end-to-end init on a real directory.",
+    "C07": _B + "Decided: every blob write is an all-or-error append inside a range reserved in the writing closure and the size counter never moves back; the only positional write is the index header; ids never reused at init. Outside: clean_file call sites, 'queries perform no writes' above File level.",
+    "C09": _B + "Decided: layer partitioning writer vs describer (n <= 6/7), leaf packing windows (<= 3 keys, nonlinear), in-leaf search and leftmost walk (<= 4/6), continuation past the 4 KiB buffer, node layout and in-node search (Kani). Outside: multi-level descent end-to-end on real files.",
+    "C10": _B + "Decided: hierarchy never hides a live child (<= 4/5 children, group sizes 2,3(,4)), bloom add/probe/file-probe bit agreement (<= 2/3 hashers), bit<->byte mapping, range filter, filter offsets, hasher keys and hash dataflow (stubbed multiply). Outside: bloom Save bytes, float sizing formulas.",
+    "C11": _B + "Faults are arbitrary Err results of callee futures / file operations. Decided: failed dump keeps headers, write/index order, worker survives I/O errors, close keeps the blob on a failed sync, append discipline, acknowledged write implies stored. Outside: post-restart state end-to-end.",
+    "C12": _B + "Decided at call-order level: header synced before use, blob synced before its index is dumped, index flag after body, close/explicit fsync leave nothing dirty, single-flight flag released on every exit, dirty-byte accounting (Kani). Outside: that a background sync is eventually scheduled (liveness).",
+    "C13": _B + "Safety kernels only: process_msg / deferred processing never return Err (run() panics on Err), loop step stops only on channel close, postponed dump always re-armed. Outside: liveness (scheduling, task completion).",
+    "C14": _B + "Structural: no suspension point between a blob write and its index insertion, reservation inside the non-cancellable closure, no suspension while a blob is in neither the active slot nor the closed list (restore, close). Outside: Storage-level futures in general, Blob::open_new (observed, not covered).",
+    "C15": _B + "Decided: blobs_count over container histories (<= 4 children), records_count on push and on load, id allocation, index accepted only for its exact blob length. Outside: disk_used, corrupted count end-to-end.",
+    "C16": _B + "Decided: reader step validates header and data CRC and advances exactly, skip-once logic, validate_blob all-or-error (<= 3/5), recovery copies exactly the valid prefix in order (<= 3), writer re-addresses records, migration of every record. Outside: index tools, acceptance of real storage output end-to-end.",
+    "C17": _B + "Layout differentials: real encoders emit the pinned byte layouts written out in the harnesses and decoders invert them (record header k=1,4; blob header; index header; tree/node meta), validation rejects mismatches, bloom hasher keys and hash dataflow pinned. Outside: replaying a corpus of old files, SHA-256, bloom Save.",
+}
 LEVEL_NOTE = {}
 TECHNIQUE = {}
 NOT_APPLICABLE = {
